@@ -981,7 +981,7 @@ def search_real(ctx: Ctx, app: Any, seen_cases: list[Case]) -> SearchResult:
 	res = SearchResult('exec(e) == eval(e) with equal type, or an application error — real LiteralEvaluator vs CPython eval')
 	rng = ctx.sub_rng('search')
 	cases = list(seen_cases)
-	n = ctx.scale(300, 4500)
+	n = ctx.scale(300, 4000)
 	regions_all = ALL_REGIONS
 	regions_in = ALL_REGIONS - {'triple', 'prefix', 'escape', 'strstr', 'arity'}
 	for i in range(n):
@@ -1126,7 +1126,7 @@ def search_output(ctx: Ctx, only: list[list[Member]] | None = None) -> SearchRes
 	app = make_py2cpp_app(ctx)
 	regions = ALL_REGIONS - {'confuse'}
 	modules: list[tuple[list[list[Member]], str]] = [(enums, f'corpus:{label}') for label, enums in load_corpus()] if only is None else [(only, 'replay')]
-	for i in range(ctx.scale(110, 800) if only is None else 0):
+	for i in range(ctx.scale(110, 500) if only is None else 0):
 		modules.append((gen_module(rng, regions, 1 + i % 4, 1 + i % 3, 4 + i % 5, boost=3.0 if i % 6 == 5 else 1.0, homogeneous=True), f'output#{i}'))
 	hist: dict[str, int] = {}
 	texts = set()
@@ -1150,10 +1150,12 @@ def search_output(ctx: Ctx, only: list[list[Member]] | None = None) -> SearchRes
 			add('module-rejected', f'tranp does not load a generated Enum module with .value reads: {exc_enum(e)}', {'source': source, 'kind': 'output'})
 			continue
 		py = python_results(enums)
-		mixed = [ms[0].enum for ms in enums if len({type(py[m.key]) is str for m in ms if not _is_exc(py[m.key])}) > 1]
+		def klass(v: Any) -> str:
+			return 'exc' if _is_exc(v) else 'str' if type(v) is str else 'num' if type(v) in (int, float) else 'other'
+		mixed = [ms[0].enum for ms in enums if klass(py[ms[0].key]) not in ('str', 'num') or {klass(py[m.key]) for m in ms} - {'exc', klass(py[ms[0].key])}]
 		if mixed:
-			# tranp types `Enum.X.value` by the enum's first member (an enum mixing strings and numbers is outside its typing, C03):
-			# whether the literal is quoted follows that type, so such modules are not judged here
+			# tranp types `Enum.X.value` by the enum's first member (an enum mixing strings and numbers, or starting with a member that is
+			# neither, is outside its typing, C03): whether the literal is quoted follows that type, so such modules are not judged here
 			hist['info:module-with-mixed-enum-skipped'] = hist.get('info:module-with-mixed-enum-skipped', 0) + 1
 			continue
 		for m, node in zip(members, reads):
@@ -1220,7 +1222,7 @@ def run(ctx: Ctx) -> int:
 	cases: list[Case] = []
 	if proof.built:
 		with ctx.timed('observe'):
-			cases = make_cases(ctx, app, 'eval', ctx.scale(300, 3000), ALL_REGIONS, corpus=True)
+			cases = make_cases(ctx, app, 'eval', ctx.scale(300, 2600), ALL_REGIONS, corpus=True)
 		with ctx.timed('oracle_rounds'):
 			rounds = fill_oracles(cases)
 			ctx.notes.append(f'oracle rounds: {rounds}; cases dropped (not encodable): {sum(1 for c in cases if c.error)}')
